@@ -1357,5 +1357,16 @@ example :
       [(⟨"_x._tcp.local.", 12, 1, false, 120, 1000, .ptr "a._x._tcp.local."⟩, none),
        (⟨"_x._tcp.local.", 12, 1, false, 120, 1000, .ptr "A._x._tcp.local."⟩, none)])).2.length = 2 := by decide
 
+/-- **D23** (outside the quantifier: `WFHistory.fresh` fails).  A browser created after a cached pointer record expired but before
+the purge removed it: the initial replay skips the expired record; when the instance announces itself again the stale entry is
+refreshed in place and handed to the browser as `(new, old = the stale entry)` — a refresh — so no Added is ever delivered although
+the cache holds the pointer record. -/
+example :
+    let p : Rec := ⟨"_x._tcp.local.", 12, 1, false, 1125, 0, .ptr "a._x._tcp.local."⟩
+    let run := browserRunFrom id (fun n => [n]) [.datagram 1000 [p]] 1130200 ["_x._tcp.local."] [.datagram 1130300 [p]]
+    reportedLive id run.batches "_x._tcp.local." "a._x._tcp.local." = false
+    ∧ (run.cache.getUnique id (ptrRec "_x._tcp.local." "a._x._tcp.local.")).isSome = true
+    ∧ run.batches = [[], []] := by decide
+
 end
 end Zc
